@@ -1110,7 +1110,7 @@ theorem parseLoop_good (O : Oracles) (f : Format) (s : List Nat) (len : Nat) (hw
     | err => simp
     | panic => rw [hr] at hg; exact absurd hg (by simp [Step.Good])
 
-theorem buildEpoch_no_panic (st : St) (hinv : st.Inv) : buildEpoch st ≠ .panic := by
+theorem buildEpoch_no_panic (f : Format) (st : St) (hinv : st.Inv) : buildEpoch f st ≠ .panic := by
   unfold St.Inv at hinv
   have h3 : toU8 st.h = some st.h := by unfold toU8; rw [if_pos (by omega)]
   have h4 : toU8 st.mi = some st.mi := by unfold toU8; rw [if_pos (by omega)]
@@ -1118,11 +1118,7 @@ theorem buildEpoch_no_panic (st : St) (hinv : st.Inv) : buildEpoch st ≠ .panic
   have h6 : toU32 st.ns = some st.ns := by unfold toU32; rw [if_pos (by omega)]
   unfold buildEpoch
   split
-  · have g1 : toU8 (if st.mo = 0 ∧ st.d = 0 then 1 else st.mo) = some (if st.mo = 0 ∧ st.d = 0 then 1 else st.mo) := by
-      unfold toU8; rw [if_pos (by split <;> omega)]
-    have g2 : toU8 (if st.mo = 0 ∧ st.d = 0 then 1 else st.d) = some (if st.mo = 0 ∧ st.d = 0 then 1 else st.d) := by
-      unfold toU8; rw [if_pos (by split <;> omega)]
-    rw [g1, g2, h3, h4, h5, h6]
+  · rw [h3, h4, h5, h6]
     simp only
     repeat' split
     all_goals first
@@ -1142,11 +1138,11 @@ theorem tz_canon (st : St) (hinv : st.Inv) :
   have h2 := Cal.unitMul_val Cal.NPMIN st.om (by right; right; left; rfl) (by omega)
   exact (add_spec _ _ h1.1 h2.1).1
 
-theorem finish_no_panic (st : St) (hinv : st.Inv) : finish st ≠ .panic := by
+theorem finish_no_panic (f : Format) (st : St) (hinv : st.Inv) : finish f st ≠ .panic := by
   obtain ⟨r, hr, _, _⟩ := neg_spec _ (tz_canon st hinv)
-  have hb := buildEpoch_no_panic st hinv
+  have hb := buildEpoch_no_panic f st hinv
   unfold finish
-  cases hbe : buildEpoch st with
+  cases hbe : buildEpoch f st with
   | panic => exact absurd hbe hb
   | err => simp
   | ok e =>
@@ -1165,7 +1161,7 @@ theorem formatParse_no_panic (O : Oracles) (f : Format) (s : List Nat) (hwf : f.
   · rename_i it _ _
     have hl := parseLoop_good O f (trim s) (byteLen (trim s)) hwf (trim s) 0 (St.init it) (init_inv it)
     split
-    · rename_i st hst; exact finish_no_panic st (hl.2 st hst)
+    · rename_i st hst; exact finish_no_panic f st (hl.2 st hst)
     · simp
     · rename_i h; exact absurd h hl.1
 
@@ -1227,5 +1223,58 @@ theorem rfc3339Flex_output (O : Oracles) (e : Ep) (off : Dur) (y mo d h mi s ns 
   rw [if_pos hng, hg]
   by_cases h1 : ns > 0 <;>
     simp [rfc3339Flex, gregGo, tokText, Item.sepText, List.append_assoc, h1, hz]
+
+/-! ### the day-of-year arm of `Format::parse`: the derived month and day are the date of that day of the year -/
+
+/-- the table behind `ordinal_date_spec`: for both kinds of year and EVERY day of year 1..366 the loop ends on a month
+    1..12 and a day within that month, and the days of the months in front of it plus the day give the day of year
+    back (complete finite table: 2 × 366 cases) -/
+theorem ordinalGo_table : ∀ leap : Bool, ∀ k ∈ List.range 366,
+    ((k : Int) + 1 ≤ (if leap then 366 else 365)) →
+    1 ≤ (ordinalGo leap 16 1 ((k : Int) + 1)).1 ∧ (ordinalGo leap 16 1 ((k : Int) + 1)).1 ≤ 12 ∧
+    1 ≤ (ordinalGo leap 16 1 ((k : Int) + 1)).2 ∧
+    (ordinalGo leap 16 1 ((k : Int) + 1)).2 ≤ daysInMonth leap (ordinalGo leap 16 1 ((k : Int) + 1)).1 ∧
+    Cal.cumCommon (ordinalGo leap 16 1 ((k : Int) + 1)).1
+      + (if leap = true ∧ 3 ≤ (ordinalGo leap 16 1 ((k : Int) + 1)).1 then 1 else 0)
+      + (ordinalGo leap 16 1 ((k : Int) + 1)).2 = (k : Int) + 1 := by
+  decide +kernel
+
+theorem daysInMonth_eq (y m : Int) (h1 : 1 ≤ m) (h2 : m ≤ 12) : daysInMonth (isLeap y) m = monthLen y m := by
+  unfold daysInMonth monthLen
+  rcases Cal.month_cases h1 h2 with rfl | rfl | rfl | rfl | rfl | rfl | rfl | rfl | rfl | rfl | rfl | rfl <;>
+    cases isLeap y <;> decide
+
+/-- THE DATE OF A DAY OF THE YEAR: for every year and every day of year `n` of that year (1..365, 366 in a leap
+    year), the month and day `Format::parse` derives are a valid date of the specification calendar, and it is the
+    `n`-th day of that year: its day number is that of 1 January plus `n − 1` (so it is the date the specification
+    reads, `dateOfDayNumber`, day numbers being injective on valid dates: `Cal.dayNumber_inj`) -/
+theorem ordinal_date_spec (y n : Int) (h1 : 1 ≤ n) (h2 : n ≤ (if isLeap y = true then 366 else 365)) :
+    validDate ⟨y, (ordinalGo (isLeap y) 16 1 n).1, (ordinalGo (isLeap y) 16 1 n).2⟩ = true ∧
+    dayNumber ⟨y, (ordinalGo (isLeap y) 16 1 n).1, (ordinalGo (isLeap y) 16 1 n).2⟩ = dayNumber ⟨y, 1, 1⟩ + n - 1 := by
+  have hk : ((n - 1).toNat : Int) + 1 = n := by omega
+  have hmem : (n - 1).toNat ∈ List.range 366 := by
+    rw [List.mem_range]; split at h2 <;> omega
+  have ht := ordinalGo_table (isLeap y) (n - 1).toNat hmem (by rw [hk]; cases hl : isLeap y <;> rw [hl] at h2 <;> simpa using h2)
+  rw [hk] at ht
+  obtain ⟨a1, a2, a3, a4, a5⟩ := ht
+  rw [daysInMonth_eq y _ a1 a2] at a4
+  refine ⟨(Cal.validDate_iff _).mpr ⟨a1, a2, a3, a4⟩, ?_⟩
+  rw [← Cal.modelDay_eq_dayNumber y _ _ a1 a2, ← Cal.modelDay_eq_dayNumber y 1 1 (by omega) (by omega),
+    Cal.cumulAt_eq y _ a1 a2, Cal.cumulAt_eq y 1 (by omega) (by omega)]
+  have c1 : Cal.cumCommon 1 = 0 := by decide
+  rw [c1]
+  have e : (if isLeap y = true ∧ (3:Int) ≤ 1 then (1:Int) else 0) = 0 := by
+    rw [if_neg (by omega)]
+  rw [e]
+  omega
+
+/-- the leap-year test of the day-of-year arm, `is_gregorian_valid(year, 2, 29, 0, 0, 0, 0)`, is the leap-year rule -/
+theorem leapTest_eq (y : Int) : Cal.isGregorianValidCore y 2 29 0 0 0 0 = isLeap y := by
+  unfold Cal.isGregorianValidCore
+  have hm : ¬ ((0:Int) > Cal.maxSeconds y 2 29 0 0) := by unfold Cal.maxSeconds; split <;> omega
+  have hn : ¬ ((0:Int) > Gen.NANOSECONDS_PER_SECOND) := by decide
+  rw [if_neg (by omega)]
+  rw [Cal.isLeapYear_eq]
+  cases isLeap y <;> decide
 
 end Hifi.Efmt
